@@ -124,13 +124,14 @@ Qed.
 
 Lemma grid_lo : forall q X, 0 < snd q -> fst q <= X * snd q -> gen_i32_min <= X -> grid q <= X.
 Proof.
-  intros [n d] X Hd H Hx. unfold grid, clip32. cbn [fst snd] in *. pose proof (rint_le n d X Hd H). lia.
+  intros [n d] X Hd H Hx. unfold grid, clip32. cbn [fst snd] in *. pose proof (rint_le n d X Hd H).
+  unfold gen_clip_lo, gen_clip_hi, gen_i32_min, gen_i32_max in *. lia.
 Qed.
 
 Lemma grid_hi : forall q X, 0 < snd q -> X * snd q <= fst q -> X <= gen_i32_max -> X <= grid q.
 Proof.
   intros [n d] X Hd H Hx. unfold grid, clip32. cbn [fst snd] in *. pose proof (rint_ge n d X Hd H).
-  unfold gen_i32_min, gen_i32_max in *. lia.
+  unfold gen_clip_lo, gen_clip_hi, gen_i32_min, gen_i32_max in *. lia.
 Qed.
 
 (* ---------- a point really inside the box passes the integer filter ---------- *)
@@ -164,8 +165,29 @@ Proof.
   intros [n0 d0] [n1 d1] X H0 H1 S0 S1 H. cbn [fst snd] in *. unfold gen_keep1, grid, clip32 in H. cbn [fst snd] in H.
   pose proof (rint_close n0 d0 H0) as C0. pose proof (rint_close n1 d1 H1) as C1.
   apply andb_prop in H. destruct H as [Ha Hb].
-  assert (Ha' : rint n0 d0 <= X) by (unfold gen_i32_min, gen_i32_max in *; lia).
-  assert (Hb' : X <= rint n1 d1) by (unfold gen_i32_min, gen_i32_max in *; lia).
+  assert (Ha' : rint n0 d0 <= X) by (unfold gen_clip_lo, gen_clip_hi, gen_i32_min, gen_i32_max in *; lia).
+  assert (Hb' : X <= rint n1 d1) by (unfold gen_clip_lo, gen_clip_hi, gen_i32_min, gen_i32_max in *; lia).
+  assert (rint n0 d0 * d0 <= X * d0) by (apply Z.mul_le_mono_nonneg_r; lia).
+  assert (X * d1 <= rint n1 d1 * d1) by (apply Z.mul_le_mono_nonneg_r; lia).
+  lia.
+Qed.
+
+(* the clip bounds lie OUTSIDE the int32 grid: for an int32 coordinate the integer filter is exactly
+   rint q0 <= X <= rint q1, however far the bounds are *)
+Lemma keep1_exact : forall q0 q1 X, gen_i32_min <= X <= gen_i32_max ->
+  (gen_keep1 (grid q0) (grid q1) X = true <-> rint (fst q0) (snd q0) <= X <= rint (fst q1) (snd q1)).
+Proof.
+  intros [n0 d0] [n1 d1] X HX. unfold gen_keep1, grid, clip32. cbn [fst snd].
+  unfold gen_clip_lo, gen_clip_hi, gen_i32_min, gen_i32_max in *. lia.
+Qed.
+
+Lemma keep1_half_step_all : forall q0 q1 X, 0 < snd q0 -> 0 < snd q1 -> gen_i32_min <= X <= gen_i32_max ->
+  gen_keep1 (grid q0) (grid q1) X = true ->
+  2 * fst q0 - snd q0 <= 2 * (X * snd q0) /\ 2 * (X * snd q1) <= 2 * fst q1 + snd q1.
+Proof.
+  intros q0 q1 X H0 H1 HX H. apply (keep1_exact q0 q1 X HX) in H. destruct H as [Ha Hb].
+  destruct q0 as [n0 d0]. destruct q1 as [n1 d1]. cbn [fst snd] in *.
+  pose proof (rint_close n0 d0 H0) as C0. pose proof (rint_close n1 d1 H1) as C1.
   assert (rint n0 d0 * d0 <= X * d0) by (apply Z.mul_le_mono_nonneg_r; lia).
   assert (X * d1 <= rint n1 d1 * d1) by (apply Z.mul_le_mono_nonneg_r; lia).
   lia.
